@@ -1326,3 +1326,535 @@ func r46RingsEqualInStep(c *core.Ctx) {
 	}
 	c.OK(R, construct, f.Decl.Pos(), fmt.Sprintf("%d comparisons over the 3 reachable role combinations: second ring indexed idx+k (same direction) or idx-k (shell against hole), modulo the ring length", nCmp))
 }
+
+func init() {
+	reg("R33", r33AttributesPassedThrough)
+}
+
+// r33AttributesPassedThrough: what the reader puts into a feature's attribute list is the value the driver scanned
+// for that column: the scanned interface value itself, its dynamic value after a type assertion, or -- for byte
+// slices, whose storage the driver reuses -- a string made of a fresh copy.  A value that went through a method or
+// function on the way (a time re-formatted, a number rounded) is no longer "the attributes of that feature".
+func r33AttributesPassedThrough(c *core.Ctx) {
+	const R = "R33"
+	f := c.Anchor(R, "gpkg.SourceGeopackage.ReadFeatures")
+	if f == nil || f.SSA == nil {
+		return
+	}
+	construct := "attributes-passed-through-unchanged/" + f.Name
+	fns := []*ssa.Function{f.SSA}
+	// the per-row work may sit in a package helper
+	for _, b := range f.SSA.Blocks {
+		for _, in := range b.Instrs {
+			if call, ok := in.(*ssa.Call); ok {
+				if g := call.Call.StaticCallee(); g != nil && len(g.Blocks) > 0 && g.Pkg == f.SSA.Pkg {
+					fns = append(fns, g)
+				}
+			}
+		}
+	}
+	var scanned func(v ssa.Value, depth int) bool
+	scanned = func(v ssa.Value, depth int) bool {
+		if depth > 6 {
+			return false
+		}
+		v = resolveValue(v)
+		switch x := v.(type) {
+		case *ssa.MakeInterface:
+			return scanned(x.X, depth+1)
+		case *ssa.ChangeInterface:
+			return scanned(x.X, depth+1)
+		case *ssa.Extract:
+			if ta, ok := x.Tuple.(*ssa.TypeAssert); ok && x.Index == 0 {
+				return scanned(ta.X, depth+1)
+			}
+		case *ssa.TypeAssert:
+			return scanned(x.X, depth+1)
+		case *ssa.Phi:
+			for _, e := range x.Edges {
+				if !scanned(e, depth+1) {
+					return false
+				}
+			}
+			return len(x.Edges) > 0
+		case *ssa.UnOp:
+			// an element of the []interface{} the row was scanned into (or a parameter of a helper holding one)
+			if x.Op == token.MUL {
+				if ia, ok := x.X.(*ssa.IndexAddr); ok {
+					if sl, ok := ia.X.Type().Underlying().(*types.Slice); ok {
+						if _, isIface := sl.Elem().Underlying().(*types.Interface); isIface {
+							return true
+						}
+					}
+				}
+			}
+		case *ssa.Parameter:
+			_, isIface := x.Type().Underlying().(*types.Interface)
+			return isIface
+		case *ssa.Convert:
+			// string(fresh copy of the scanned bytes)
+			if b, ok := x.Type().Underlying().(*types.Basic); ok && b.Kind() == types.String {
+				src := resolveValue(x.X)
+				if _, fresh := src.(*ssa.MakeSlice); fresh {
+					for _, r := range *src.Referrers() {
+						if call, ok := r.(*ssa.Call); ok {
+							if _, isCopy := isBuiltinCall(call, "copy"); isCopy && call.Call.Args[0] == src && scanned(call.Call.Args[1], depth+1) {
+								return true
+							}
+						}
+					}
+				}
+				// string(v) of the scanned bytes directly
+				return scanned(src, depth+1)
+			}
+		}
+		return false
+	}
+	n, bad := 0, ""
+	for _, fn := range fns {
+		for _, b := range fn.Blocks {
+			for _, in := range b.Instrs {
+				call, ok := in.(*ssa.Call)
+				if !ok {
+					continue
+				}
+				if _, isApp := isBuiltinCall(call, "append"); !isApp || len(call.Call.Args) != 2 {
+					continue
+				}
+				sl, ok := call.Type().Underlying().(*types.Slice)
+				if !ok {
+					continue
+				}
+				if it, isIface := sl.Elem().Underlying().(*types.Interface); !isIface || it.NumMethods() != 0 {
+					continue
+				}
+				for _, e := range sliceLitElems(call.Call.Args[1]) {
+					n++
+					if !scanned(e, 0) {
+						bad += fmt.Sprintf("%s appends %s; ", c.P.Pos(call.Pos()), strings.TrimSpace(e.String()))
+					}
+				}
+			}
+		}
+	}
+	c.Check(R, construct, f.Decl.Pos(), bad == "" && n >= 5, fmt.Sprintf("%d values appended to the attribute list, each the scanned value itself (or a fresh string copy of scanned bytes)", n), "an attribute value is transformed between the source row and the feature: "+bad)
+}
+
+func init() {
+	reg("R01", r01CodecIsPlainScaling)
+}
+
+// r01CodecIsPlainScaling: every coordinate enters the integer domain through FromGeomOrd and leaves it through
+// ToGeomOrd.  Both are the plain scaling by 10^Precision the other rules take them for: ToGeomOrd(o) is
+// float64(o) / 10^Precision (or the constant 0), FromGeomOrd(o) is int64(o * 10^Precision).  Anything else (whole
+// and fractional part converted apart, an offset, another rounding) is not understood and fails.
+func r01CodecIsPlainScaling(c *core.Ctx) {
+	const R = "R01"
+	isScale := func(v ssa.Value) bool {
+		v = resolveValue(v)
+		switch x := v.(type) {
+		case *ssa.Const:
+			return x.Value != nil && x.Value.Kind() == constant.Float && x.Float64() == 1e10
+		case *ssa.Convert:
+			if k, ok := x.X.(*ssa.Const); ok && k.Value != nil {
+				f, _ := constant.Float64Val(constant.ToFloat(k.Value))
+				return f == 1e10
+			}
+		case *ssa.Call:
+			if core.StaticCalleeID(x) == "math.Pow" && len(x.Call.Args) == 2 {
+				b, ok1 := x.Call.Args[0].(*ssa.Const)
+				e, ok2 := x.Call.Args[1].(*ssa.Const)
+				if ok1 && ok2 && b.Value != nil && e.Value != nil {
+					bf, _ := constant.Float64Val(constant.ToFloat(b.Value))
+					ef, _ := constant.Float64Val(constant.ToFloat(e.Value))
+					return bf == 10 && ef == 10
+				}
+			}
+		}
+		return false
+	}
+	check := func(name string, shape func(fn *ssa.Function, r ssa.Value) string) {
+		f := c.Anchor(R, name)
+		if f == nil || f.SSA == nil {
+			return
+		}
+		n, why := 0, ""
+		for _, b := range f.SSA.Blocks {
+			for _, in := range b.Instrs {
+				if ret, ok := in.(*ssa.Return); ok && len(ret.Results) == 1 {
+					n++
+					if w := shape(f.SSA, ret.Results[0]); w != "" {
+						why = w
+					}
+				}
+			}
+		}
+		c.Check(R, "codec-is-plain-scaling/"+name, f.Decl.Pos(), n > 0 && why == "", "scaling by 10^Precision and one conversion, nothing else", name+" is no longer the plain scaling by 10^Precision: "+why)
+	}
+	check("intgeom.ToGeomOrd", func(fn *ssa.Function, r ssa.Value) string {
+		r = resolveValue(r)
+		if k, ok := r.(*ssa.Const); ok && k.Value != nil && k.Float64() == 0 {
+			return ""
+		}
+		q, ok := r.(*ssa.BinOp)
+		if !ok || q.Op != token.QUO || !isScale(q.Y) {
+			return "the result is not <float of the ordinate> / 10^Precision"
+		}
+		cv, ok := resolveValue(q.X).(*ssa.Convert)
+		if !ok || resolveValue(cv.X) != ssa.Value(fn.Params[0]) {
+			return "what is divided is not float64(o) of the whole ordinate"
+		}
+		return ""
+	})
+	check("intgeom.FromGeomOrd", func(fn *ssa.Function, r ssa.Value) string {
+		cv, ok := resolveValue(r).(*ssa.Convert)
+		if !ok {
+			return "the result is not a conversion of the scaled ordinate"
+		}
+		m, ok := resolveValue(cv.X).(*ssa.BinOp)
+		if !ok || m.Op != token.MUL {
+			return "what is converted is not o * 10^Precision"
+		}
+		x, y := resolveValue(m.X), m.Y
+		if isScale(x) {
+			x, y = resolveValue(m.Y), m.X
+		}
+		if x != ssa.Value(fn.Params[0]) || !isScale(y) {
+			return "what is converted is not o * 10^Precision"
+		}
+		return ""
+	})
+}
+
+func init() {
+	reg("R19", r19NoScalarCarriedBetweenLevels)
+}
+
+// r19NoScalarCarriedBetweenLevels: the iterations of a loop over the requested levels are independent: inside such
+// a loop (a range over a level-keyed map or over the level list; not the coarse-to-fine descent, whose iterations
+// are dependent by design) no variable of basic type declared outside the loop is assigned.  A flag or counter set
+// while one level is processed and read later makes what happens to the other levels -- in this or a later
+// iteration of an enclosing loop -- depend on which levels were requested together.
+func r19NoScalarCarriedBetweenLevels(c *core.Ctx) {
+	const R = "R19"
+	root := c.Anchor(R, "snap.SnapPolygon")
+	if root == nil {
+		return
+	}
+	reach := core.ReachableNoStdlibTransit(c.P.VTA(), root.SSA)
+	n, bad := 0, ""
+	for _, fn := range sortedFuncs(c.P) {
+		sp := core.ShortPkg(fn.Pkg.PkgPath)
+		if (sp != "snap" && sp != "pointindex") || fn.SSA == nil || fn.Decl.Body == nil {
+			continue
+		}
+		if _, ok := reach[fn.SSA]; !ok {
+			continue
+		}
+		info := fn.Pkg.TypesInfo
+		ast.Inspect(fn.Decl.Body, func(nd ast.Node) bool {
+			body, ok := isLevelLoop(info, nd)
+			if !ok {
+				return true
+			}
+			if _, isFor := nd.(*ast.ForStmt); isFor {
+				return true // the descent
+			}
+			n++
+			outer := func(e ast.Expr) (types.Object, bool) {
+				id, ok := ast.Unparen(e).(*ast.Ident)
+				if !ok {
+					return nil, false
+				}
+				o := core.ObjOf(info, id)
+				v, isVar := o.(*types.Var)
+				if !isVar || v.IsField() {
+					return nil, false
+				}
+				if _, basic := v.Type().Underlying().(*types.Basic); !basic {
+					return nil, false
+				}
+				if v.Pos() >= nd.Pos() && v.Pos() <= nd.End() {
+					return nil, false // the loop's own variables
+				}
+				return o, true
+			}
+			ast.Inspect(body, func(x ast.Node) bool {
+				switch s := x.(type) {
+				case *ast.AssignStmt:
+					if s.Tok == token.DEFINE {
+						return true
+					}
+					for _, l := range s.Lhs {
+						if o, isOuter := outer(l); isOuter {
+							bad += fmt.Sprintf("%s: %s is assigned inside the loop over levels at %s; ", c.P.Pos(s.Pos()), o.Name(), c.P.Pos(nd.Pos()))
+						}
+					}
+				case *ast.IncDecStmt:
+					if o, isOuter := outer(s.X); isOuter {
+						bad += fmt.Sprintf("%s: %s is counted inside the loop over levels at %s; ", c.P.Pos(s.Pos()), o.Name(), c.P.Pos(nd.Pos()))
+					}
+				}
+				return true
+			})
+			return true
+		})
+	}
+	c.Check(R, "no-scalar-carried-between-levels/snap+pointindex", root.Decl.Pos(), bad == "" && n >= 5, fmt.Sprintf("%d loops over requested levels; none assigns a flag, counter or other scalar that outlives the iteration", n), "state is carried from one level to another: "+bad)
+}
+
+func init() {
+	reg("R39", r39RawMembersReencodedRaw)
+}
+
+// r39RawMembersReencodedRaw: where a decoder keeps a member of the document as it came (a field of type
+// map[string]interface{} it stores into), that copy is what the encoder of the same type reads.  Encoding a typed
+// subset in its place drops every member the typed form does not model, and decode(encode(v)) differs from v.
+func r39RawMembersReencodedRaw(c *core.Ctx) {
+	const R = "R39"
+	pk := c.P.PkgShort("tms20")
+	if pk == nil {
+		return
+	}
+	type acc struct{ dec, enc bool }
+	fields := map[*types.Var]*acc{}
+	isRaw := func(t types.Type) bool {
+		m, ok := t.Underlying().(*types.Map)
+		if !ok {
+			return false
+		}
+		it, ok := m.Elem().Underlying().(*types.Interface)
+		return ok && it.NumMethods() == 0
+	}
+	owner := map[*types.Var]string{}
+	hasEnc := map[string]bool{}
+	for _, f := range sortedFuncs(c.P) {
+		if f.Pkg != pk || f.SSA == nil || f.Decl.Recv == nil {
+			continue
+		}
+		name := f.Decl.Name.Name
+		isDec := strings.HasPrefix(name, "UnmarshalJSON")
+		isEnc := name == "MarshalJSON"
+		if !isDec && !isEnc {
+			continue
+		}
+		st, ok := core.DerefStruct(f.SSA.Params[0].Type())
+		if !ok {
+			continue
+		}
+		tname := core.TypeShort(f.SSA.Params[0].Type())
+		if isEnc {
+			hasEnc[tname] = true
+		}
+		// the method, its closures and the package helpers it calls (one level)
+		fns := core.AllSSAFuncs(f.SSA)
+		for _, b := range f.SSA.Blocks {
+			for _, in := range b.Instrs {
+				if ci, ok := in.(ssa.CallInstruction); ok {
+					if g := ci.Common().StaticCallee(); g != nil && len(g.Blocks) > 0 && g.Pkg == f.SSA.Pkg && !strings.Contains(g.Name(), "arshalJSON") {
+						fns = append(fns, core.AllSSAFuncs(g)...)
+					}
+				}
+			}
+		}
+		for _, fn := range fns {
+			for _, b := range fn.Blocks {
+				for _, in := range b.Instrs {
+					var fa *ssa.FieldAddr
+					write := false
+					switch x := in.(type) {
+					case *ssa.Store:
+						fa, _ = x.Addr.(*ssa.FieldAddr)
+						write = true
+					case *ssa.UnOp:
+						if x.Op == token.MUL {
+							fa, _ = x.X.(*ssa.FieldAddr)
+						}
+					}
+					if fa == nil {
+						continue
+					}
+					s2, ok := core.DerefStruct(fa.X.Type())
+					if !ok || s2 != st {
+						continue
+					}
+					fv := st.Field(fa.Field)
+					if !isRaw(fv.Type()) {
+						continue
+					}
+					if fields[fv] == nil {
+						fields[fv] = &acc{}
+						owner[fv] = tname
+					}
+					if isDec && write {
+						fields[fv].dec = true
+					}
+					if isEnc && !write {
+						fields[fv].enc = true
+					}
+				}
+			}
+		}
+	}
+	n := 0
+	for fv, a := range fields {
+		if !a.dec || !hasEnc[owner[fv]] {
+			continue
+		}
+		n++
+		c.Check(R, "raw-member-reencoded-raw/"+owner[fv]+"."+fv.Name(), fv.Pos(), a.enc, "kept as decoded and read by the encoder", "the decoder keeps the member as it came in "+owner[fv]+"."+fv.Name()+" but the encoder does not read it: what is written is a typed subset and the rest of the member is lost")
+	}
+	if n < 2 {
+		c.Bad(R, "raw-member-reencoded-raw/inventory", token.NoPos, fmt.Sprintf("%d raw members found (the wkt and referenceSystem forms of the crs were confirmed by hand)", n))
+	}
+}
+
+func init() {
+	reg("R37", r37NoAcceptanceWithoutGate)
+}
+
+// r37NoAcceptanceWithoutGate: validation cannot answer "accepted" without having asked: every return of
+// validateTileMatrixSet that can carry a nil error lies behind the IsQuadTree call.  A shortcut before it (an empty
+// id list, a cached answer) accepts sets nobody looked at.
+func r37NoAcceptanceWithoutGate(c *core.Ctx) {
+	const R = "R37"
+	v := c.Anchor(R, "main.validateTileMatrixSet")
+	if v == nil || v.SSA == nil {
+		return
+	}
+	construct := "no-acceptance-without-gate/" + v.Name
+	gates := effectiveCalls(v.SSA, core.ModPath+"/pointindex.IsQuadTree", 1)
+	if len(gates) != 1 {
+		c.Bad(R, construct, v.Decl.Pos(), fmt.Sprintf("expected one call of pointindex.IsQuadTree, found %d", len(gates)))
+		return
+	}
+	gate := gates[0].Site
+	n, bad := 0, ""
+	for _, b := range v.SSA.Blocks {
+		for _, in := range b.Instrs {
+			ret, ok := in.(*ssa.Return)
+			if !ok {
+				continue
+			}
+			n++
+			if !core.Dominates(gate, ret) {
+				bad += c.P.Pos(ret.Pos()) + " "
+			}
+		}
+	}
+	c.Check(R, construct, v.Decl.Pos(), n > 0 && bad == "", fmt.Sprintf("all %d returns lie behind the IsQuadTree call", n), "validation can return without having called IsQuadTree: "+bad)
+}
+
+func init() {
+	reg("R46", r46SmallestContainingShell)
+}
+
+// r46SmallestContainingShell: when several shells contain a hole, the hole goes to the smallest of them: the
+// candidates are looked up in the list of shells sorted by area, descending, and the last match of *that list* is
+// taken.  Decided: matchInnersToPolygons hands LastMatch the area-sorted list first and the containing shells
+// second, and whatever LastMatch returns (other than the zero value) is an element of its first parameter.
+func r46SmallestContainingShell(c *core.Ctx) {
+	const R = "R46"
+	mf := c.Anchor(R, "snap.matchInnersToPolygons")
+	lm := c.P.Lookup("mapslicehelp.LastMatch")
+	if mf == nil || mf.SSA == nil {
+		return
+	}
+	construct := "hole-goes-to-smallest-containing-shell/" + mf.Name
+	if lm == nil || lm.SSA == nil {
+		c.Unknown(R, construct, mf.Decl.Pos(), "mapslicehelp.LastMatch not found: how the shell is chosen among several containing ones is not understood")
+		return
+	}
+	// (a) LastMatch returns elements of its first parameter only
+	why := ""
+	nret := 0
+	hay := lm.SSA.Params[0]
+	for _, b := range lm.SSA.Blocks {
+		for _, in := range b.Instrs {
+			ret, ok := in.(*ssa.Return)
+			if !ok || len(ret.Results) != 1 {
+				continue
+			}
+			nret++
+			var check func(v ssa.Value, seen map[ssa.Value]bool)
+			check = func(v ssa.Value, seen map[ssa.Value]bool) {
+				v = resolveValue(v)
+				if seen[v] {
+					return
+				}
+				seen[v] = true
+				switch x := v.(type) {
+				case *ssa.Phi:
+					for _, e := range x.Edges {
+						check(e, seen)
+					}
+					return
+				case *ssa.Const:
+					return // the zero value
+				case *ssa.UnOp:
+					if x.Op == token.MUL {
+						if ia, ok := x.X.(*ssa.IndexAddr); ok && resolveValue(ia.X) == ssa.Value(hay) {
+							return
+						}
+						if a, ok := x.X.(*ssa.Alloc); ok {
+							// `var empty T` / a result variable: what is stored into it
+							for _, r := range *a.Referrers() {
+								if st, ok := r.(*ssa.Store); ok && st.Addr == ssa.Value(a) {
+									check(st.Val, seen)
+								}
+							}
+							return
+						}
+					}
+				}
+				why = "a result of LastMatch is not an element of its first parameter (" + strings.TrimSpace(v.String()) + ")"
+			}
+			check(ret.Results[0], map[ssa.Value]bool{})
+		}
+	}
+	// (b) the call: sorted list first, containing shells second
+	okCall, n := false, 0
+	for _, b := range mf.SSA.Blocks {
+		for _, in := range b.Instrs {
+			call, ok := in.(*ssa.Call)
+			if !ok || call.Call.StaticCallee() == nil || call.Call.StaticCallee().Origin() != lm.SSA && call.Call.StaticCallee() != lm.SSA {
+				continue
+			}
+			n++
+			fromSort := func(v ssa.Value) bool {
+				found := false
+				var walk func(v ssa.Value, seen map[ssa.Value]bool)
+				walk = func(v ssa.Value, seen map[ssa.Value]bool) {
+					v = resolveValue(v)
+					if seen[v] {
+						return
+					}
+					seen[v] = true
+					switch x := v.(type) {
+					case *ssa.Phi:
+						for _, e := range x.Edges {
+							walk(e, seen)
+						}
+					case *ssa.Call:
+						if g := x.Call.StaticCallee(); g != nil && strings.Contains(g.Name(), "AreaDesc") {
+							found = true
+						}
+					}
+				}
+				walk(v, map[ssa.Value]bool{})
+				return found
+			}
+			if len(call.Call.Args) == 2 && fromSort(call.Call.Args[0]) && !fromSort(call.Call.Args[1]) {
+				okCall = true
+			}
+		}
+	}
+	switch {
+	case why != "" || nret == 0:
+		c.Bad(R, construct, lm.Decl.Pos(), "the shell chosen among several containing ones is not taken from the area-sorted list: "+why)
+	case n != 1 || !okCall:
+		c.Bad(R, construct, mf.Decl.Pos(), "matchInnersToPolygons does not hand LastMatch the area-sorted shell list as first and the containing shells as second argument")
+	default:
+		c.OK(R, construct, mf.Decl.Pos(), "LastMatch(shells by area descending, containing shells) and LastMatch returns elements of its first parameter")
+	}
+}
